@@ -313,7 +313,7 @@ pub fn gen(seed: u64, run: u64, tier: &str) -> Vec<Step> {
         return sweep_steps(run);
     }
     if run % SOAK_EVERY == 7 {
-        return soak_steps(seed, run);
+        return soak_steps(seed, run, tier == "selfcheck");
     }
     let mut rng = Rng::new(seed, run, 4);
     let cfg = cfg_for(&mut rng, run);
@@ -499,9 +499,12 @@ pub fn gen(seed: u64, run: u64, tier: &str) -> Vec<Step> {
 /// then the same accepted message, more often than an 8- or 16-bit counter can count.
 const SOAK_EVERY: u64 = 2048;
 
-fn soak_steps(seed: u64, run: u64) -> Vec<Step> {
+fn soak_steps(seed: u64, run: u64, short: bool) -> Vec<Step> {
     let mut rng = Rng::new(seed, run, 41);
-    let n = *rng.pick(&[300u64, 65_540, 65_540, 70_001]);
+    let mut n = *rng.pick(&[300u64, 65_540, 65_540, 70_001]);
+    if short {
+        n = 40; // the selfcheck tier is also what Miri interprets
+    }
     let cmd = *rng.pick(&PARAM_CMDS);
     let sc = schema::schema_for(cmd).unwrap();
     let root = schema::gen_map(&sc, &mut rng, GenMode::Min);
